@@ -194,7 +194,10 @@ def check_schema(run, schema, label):
     # disable_introspection hides all of it, ordinary fields unaffected
     from py_gql import process_graphql_query
     root_field = schema.query_type.fields[0]
-    for q, meta in (("{ __schema { types { name } } }", True), ("{ __type(name: \"Query\") { name } }", True), ("{ __typename }", False)):
+    for q, meta in (("{ __schema { types { name } } }", True), ("{ __type(name: \"Query\") { name } }", True), ("{ __typename }", False),
+                    # the switch goes by the field, not by the response key it is given
+                    ("{ s: __schema { types { name } } }", True), ("{ t: __type(name: \"Query\") { name } plain: __schema { queryType { name } } }", True),
+                    ("{ ...F } fragment F on Query { inFragment: __schema { types { name } } }", True)):
         res = process_graphql_query(schema, q, disable_introspection=True)
         n += 1
         if meta and not res.errors and res.data and any(v is not None for v in res.data.values()):
@@ -217,40 +220,6 @@ def shared_type_schemas():
     yield "shared-interface:other-member", grown
 
 
-def module_state_obligation(run):
-    """frame obligation (all inputs, all histories): the introspection module keeps no mutable module-level container that its functions write -
-    what an introspection resolver returns can then depend only on its arguments (the live schema objects), not on earlier requests"""
-    import ast
-    import inspect
-    import py_gql.schema.introspection as M
-    tree = ast.parse(inspect.getsource(M))
-    containers = {n for n, v in vars(M).items() if isinstance(v, (dict, list, set)) and not n.startswith("__")}
-    written = {}
-    for fn in [x for x in ast.walk(tree) if isinstance(x, (ast.FunctionDef, ast.Lambda))]:
-        for x in ast.walk(fn):
-            tgt = None
-            if isinstance(x, ast.Subscript) and isinstance(x.ctx, (ast.Store, ast.Del)) and isinstance(x.value, ast.Name):
-                tgt = x.value.id
-            if isinstance(x, ast.Call) and isinstance(x.func, ast.Attribute) and isinstance(x.func.value, ast.Name) and x.func.attr in (
-                    "append", "add", "update", "setdefault", "pop", "clear", "extend", "insert", "remove", "discard", "popitem"):
-                tgt = x.func.value.id
-            if isinstance(x, ast.Global):
-                for g in x.names:
-                    written.setdefault(g, x.lineno)
-            if tgt in containers:
-                written.setdefault(tgt, x.lineno)
-    run.cov["obligations"] += 1
-    run.cov["backends"]["module-state typing"] = run.cov["backends"].get("module-state typing", 0) + 1
-    run.cov["functions_under_contract"].append("py_gql.schema.introspection resolvers (frame: module state)")
-    if written:
-        name, line = sorted(written.items())[0]
-        run.violation("introspection:resolvers-write-no-module-state", "py_gql.schema.introspection.%s is module-level state written by a function of the module (line %d): "
-                      "what introspection reports then depends on earlier requests, not only on the schema" % (name, line), {"name": name, "line": line}, False)
-    else:
-        run.cov["discharged"] += 1
-    return 0
-
-
 def check(tier, seed):
     from py_gql import build_schema
     run = Run("C15", tier, seed)
@@ -264,14 +233,14 @@ def check(tier, seed):
     # added to it: the answer is a function of the schema being introspected, not of what was introspected earlier in the process
     for label, schema in shared_type_schemas():
         n += check_schema(run, schema, label)
-    n += module_state_obligation(run)
     # ordinary fields are unaffected by the introspection switch (execution schema, world resolver)
     for cfg in ("blocking-executor", "executor-blocking"):
-        a = H.run_request(H.make_schema(), "{ me { name age } count }", {}, {}, cfg)
-        b = H.run_request(H.make_schema(), "{ me { name age } count }", {}, {}, cfg, disable_introspection=True)
-        n += 2
-        if a["outcome"] != "result" or b["outcome"] != "result" or H.plain(a["result"].data) != H.plain(b["result"].data):
-            run.violation("introspection:disable-switch-leaves-ordinary-fields-alone", "ordinary fields differ with disable_introspection=True", {"config": cfg}, True)
+        for q in ("{ me { name age } count }", "{ __x: count me { __name: name __schema: age } __type: count }"):      # (aliases that merely look like meta fields)
+            a = H.run_request(H.make_schema(), q, {}, {}, cfg)
+            b = H.run_request(H.make_schema(), q, {}, {}, cfg, disable_introspection=True)
+            n += 2
+            if a["outcome"] != "result" or b["outcome"] != "result" or H.plain(a["result"].data) != H.plain(b["result"].data):
+                run.violation("introspection:disable-switch-leaves-ordinary-fields-alone", "ordinary fields differ with disable_introspection=True", {"config": cfg, "query": q}, True)
     if n == 0:
         raise MachineryDefect("nothing introspected")
     run.cov["evaluations"] = n
